@@ -52,7 +52,7 @@ def main():
     readable = {sig: histbfs.describe(exe, h, env) for sig, h in shortest.items()}
     for sig, detail, hist in res.violations:
         c.violation(sig, detail + (" :: history: " + readable[sig] if shortest[sig] == hist else ""), {"history": hist})
-    if res.depth_completed < 4:
+    if res.depth_completed < 4 and not res.violations:
         c.harness_error("BFS did not complete depth 4 within the budget (depth_completed=%d)" % res.depth_completed)
     cover = read_cover(covdir)
     need = ["op:malloc:plain", "op:malloc:uhp", "op:malloc:uhp-own", "op:malloc:uhp-nosrc", "op:malloc:src-copy", "op:wrapMemory:wrap",
@@ -60,10 +60,12 @@ def main():
             "op:pool.resize:live", "op:pool.resize:empty", "op:pool.setAlignment:live", "op:pool.shrinkToFit:live", "op:pool.free:live",
             "realloc-with-live-reservations", "threw:pool.resize:live", "state:pool-and-memory", "state:pool-two-reservations",
             "state:three-memories", "finish"]
+    need += ["op:free:uhp", "op:free:uhp-own", "op:clone:of-uhp"]
+    # enforced only on runs without violations: violating transitions are not expanded, which cuts the space behind
+    # them, and such a run fails anyway
     if not res.violations:
-        need += ["op:free:uhp", "op:free:uhp-own", "op:clone:of-uhp"]
-    for k in need:
-        c.vacuity(cover.get(k, 0) > 0, "situation %r was never reached (coverage: %s)" % (k, sorted(cover.items())))
+        for k in need:
+            c.vacuity(cover.get(k, 0) > 0, "situation %r was never reached (coverage: %s)" % (k, sorted(cover.items())))
     c.set_model_checking(res.states, res.transitions, res.transitions, res.samples,
                          exhaustive=(res.depth_completed >= depth or res.exhaustive))
     c.coverage.update({
